@@ -2,6 +2,7 @@
 RSocketClient with a provider of harness transports is driven through random sequences of connect / request / server
 response / connection loss (EOF or read error) / keepalive timeout / explicit reconnect / keepalive period, each followed
 by letting the loop settle; the observable state is compared with model/Client.v."""
+from harness import internals
 import asyncio
 from datetime import timedelta
 
@@ -285,7 +286,7 @@ def reconnect_with_request_while_connecting(suspends, cause):
         for _ in range(30):
             loop.tick()
             # while the next connection is being set up (provider or transport.connect() suspended)
-            if not ts[1].connected and hasattr(c, '_send_queue') and issued < 6 and (ts[0].closed or cause != 'eof'):
+            if not ts[1].connected and internals.has_send_queue(c) and issued < 6 and (ts[0].closed or cause != 'eof'):
                 try:
                     loop.run(lambda: c.fire_and_forget(Payload(b'during-connect')))
                     issued += 1
